@@ -255,6 +255,134 @@ def create (e : Elem) (vd : Option Str) : Except PyExc VM :=
       | .error x => .error x
       | .ok values => loop T vmap values 0 vmap {}
 
+/-! ## The same construction under an explicit stack budget (known finding C20-KF3)
+
+`create` grants `_values_tuple` length+1 frames, which always suffice (`C20_values_tuple_terminates`).
+CPython grants what is left of its recursion limit (default 1000 frames in total); `createB budget` is the
+construction with exactly `budget` frames for each top-level `_values_tuple` call. -/
+
+def entAtB (budget : Nat) (T : IntType) (vmap : List Str) (i : Nat) (s : Str) : Except PyExc Ent :=
+  if s = ['.', '.'] then .ok none
+  else
+    match valuesTuple T vmap budget i with
+    | .error e => .error e
+    | .ok p => .ok (some p)
+
+def loopB (budget : Nat) (T : IntType) (vmap values : List Str) : Nat → List Str → VM → Except PyExc VM
+  | _, [], vm => .ok vm
+  | i, s :: rest, vm =>
+    match values[i]? with
+    | none => .error .indexError
+    | some vs =>
+      match entAtB budget T vmap i s with
+      | .error e => .error e
+      | .ok en => loopB budget T vmap values (i + 1) rest (addEnt vm en vs)
+
+def createB (budget : Nat) (e : Elem) (vd : Option Str) : Except PyExc VM :=
+  match intTypeOf e.typ with
+  | none => .error .modelError
+  | some T =>
+    match e.values with
+    | none => .error .valueError
+    | some values0 =>
+      let vmap := effMap e.valuemap values0.length
+      match reconcile values0 vmap vd with
+      | .error x => .error x
+      | .ok values => loopB budget T vmap values 0 vmap {}
+
+/-! ## ValueMap arrays with NULL elements (known finding C20-KF4)
+
+The same code on a `valuemap_list` whose items may be Python `None`: `None == '..'` is False,
+`re.match(pattern, None)` raises TypeError, `None.endswith` / `None.startswith` raise AttributeError. -/
+
+/-- an item of the ValueMap array: a string or None -/
+abbrev Item := Option Str
+
+/-- mirrors _values_tuple, branch `lo == ''`, on items -/
+def loOpenI (T : IntType) (vmap : List Item) (i : Nat)
+    (rec : Nat → Except PyExc (Int × Int)) : Except PyExc Int :=
+  if i = 0 then .ok T.minv
+  else
+    match vmap[i - 1]? with
+    | none => .error .indexError
+    | some none => .error .attributeError              -- None.endswith('..')
+    | some (some p) =>
+      if endsDots p then .error .modelError
+      else
+        match rec (i - 1) with
+        | .ok (_, ph) => .ok (ph + 1)
+        | .error e => .error e
+
+/-- mirrors _values_tuple, branch `hi == ''`, on items -/
+def hiOpenI (T : IntType) (vmap : List Item) (i : Nat)
+    (rec : Nat → Except PyExc (Int × Int)) : Except PyExc Int :=
+  if i + 1 = vmap.length then .ok T.maxv
+  else
+    match vmap[i + 1]? with
+    | none => .error .indexError
+    | some none => .error .attributeError              -- None.startswith('..')
+    | some (some nx) =>
+      if startsDots nx then .error .modelError
+      else
+        match rec (i + 1) with
+        | .ok (nl, _) => .ok (nl - 1)
+        | .error e => .error e
+
+/-- mirrors the body of _values_tuple on items -/
+def tupleBodyI (T : IntType) (vmap : List Item) (rec : Nat → Except PyExc (Int × Int)) (i : Nat) :
+    Except PyExc (Int × Int) :=
+  match vmap[i]? with
+  | none => .error .indexError
+  | some none => .error .typeError                     -- re.match(r'…', None)
+  | some (some s) =>
+    match rangeMatch s with
+    | none =>
+      match toInt s with
+      | .ok v => .ok (v, v)
+      | .error e => .error e
+    | some (los, his) =>
+      match (if los = [] then loOpenI T vmap i rec else toInt los) with
+      | .error e => .error e
+      | .ok lo =>
+        match (if his = [] then hiOpenI T vmap i rec else toInt his) with
+        | .error e => .error e
+        | .ok hi => .ok (lo, hi)
+
+def valuesTupleI (T : IntType) (vmap : List Item) : Nat → Nat → Except PyExc (Int × Int)
+  | 0, _ => .error .recursionError
+  | fuel + 1, i => tupleBodyI T vmap (fun j => valuesTupleI T vmap fuel j) i
+
+/-- loop body on items: `if valuemap_str == '..'` is False for None -/
+def entAtI (T : IntType) (vmap : List Item) (i : Nat) (s : Item) : Except PyExc Ent :=
+  if s = some ['.', '.'] then .ok none
+  else
+    match valuesTupleI T vmap (vmap.length + 1) i with
+    | .error e => .error e
+    | .ok p => .ok (some p)
+
+def loopI (T : IntType) (vmap : List Item) (values : List Str) : Nat → List Item → VM → Except PyExc VM
+  | _, [], vm => .ok vm
+  | i, s :: rest, vm =>
+    match values[i]? with
+    | none => .error .indexError
+    | some vs =>
+      match entAtI T vmap i s with
+      | .error e => .error e
+      | .ok en => loopI T vmap values (i + 1) rest (addEnt vm en vs)
+
+/-- size reconciliation only looks at the length of the ValueMap array -/
+def reconcileN (values : List Str) (n : Nat) (vd : Option Str) : Except PyExc (List Str) :=
+  reconcile values (List.replicate n []) vd
+
+/-- mirrors _create_for_element for a ValueMap qualifier whose array may contain NULL elements -/
+def createI (typ : String) (values0 : List Str) (vmap : List Item) (vd : Option Str) : Except PyExc VM :=
+  match intTypeOf typ with
+  | none => .error .modelError
+  | some T =>
+    match reconcileN values0 vmap.length vd with
+    | .error x => .error x
+    | .ok values => loopI T vmap values 0 vmap {}
+
 /-- the element as the CIM repository delivers it: a qualifier may be present with a NULL value
     (`some none`), e.g. MOF `[ValueMap, Values{"a"}]` -/
 structure ElemQ where
